@@ -308,6 +308,21 @@ pub fn main(ctx: &Ctx) -> i32 {
                         }
                     }
                 }
+                // the same request with a second one behind it in the same stream: whatever the
+                // first is, a following well-formed call is routed and answered as well (unless the
+                // service closed the connection at the first)
+                if run.closed.is_none() && run.panicked.is_none() {
+                    let mut two = bytes.clone();
+                    two.extend_from_slice(b"{\"method\":\"org.varlink.service.GetInfo\"}\0");
+                    cfg.log.lock().unwrap().clear();
+                    let run2 = run_whole(&cfg.svc, &two, None);
+                    let f2 = canon_frames(&run2.out);
+                    ctx.count("pipelined_follow_ups", 1);
+                    let ok = run2.closed.is_none() && f2.len() == frames.len() + 1 && f2[..frames.len()] == frames[..] && check_getinfo(&normalise(f2[f2.len() - 1].clone()), "V e n", "P\"rod", "1.2.3-β", "http://u/?a=b&c", &registered).is_ok();
+                    if !ok {
+                        ctx.violation("c03:routing:follow-up-call-not-answered", wit(format!("with a GetInfo call behind it in the same stream the replies are {} (closed: {:?}); alone the request drew {}", show(&run2.out), run2.closed, show(&run.out))));
+                    }
+                }
                 if ctx.want_sample() || rng.chance(1, 4000) {
                     ctx.sample(json!({"registered": cfg.names, "request": Value::Object(req.clone()), "expected": format!("{:?}", want), "reply": show(&run.out)}));
                 }
